@@ -423,8 +423,14 @@ pub fn act_bracket(sim: &mut Sim, ctx: &mut Ctx, kind: BracketKind) -> Option<Tx
             sim.stats.fault("tx_bracket_repeated_start");
         }
         3 => {
-            // something before the start
-            ixs.insert(start_pos, r_ix.clone());
+            // something before the start: a marginfi instruction, or an allowed foreign program's
+            // instruction with short (0/1/4-byte) or ordinary data
+            if ctx.rng.chance(1, 2) {
+                ixs.insert(start_pos, r_ix.clone());
+            } else {
+                let len = *ctx.rng.pick(&[0usize, 1, 4, 8, 16]);
+                ixs.insert(start_pos, Ix::foreign("allowed_foreign", ctx.world.allowed_foreign, vec![1; len]));
+            }
             sim.stats.fault("tx_bracket_start_not_first");
         }
         4 => {
@@ -685,7 +691,7 @@ pub fn act_shape_fuzz(sim: &mut Sim, ctx: &mut Ctx) -> Option<Tx> {
                     _ => ix::repay(&bk.keys, x, ux.authority, ta, pick_amount(ctx.rng, bal / 8 + 1), None),
                 }
             }
-            13 => Ix::foreign("allowed_foreign", allowed, vec![9; 8]),
+            13 => Ix::foreign("allowed_foreign", allowed, vec![9; *ctx.rng.pick(&[0usize, 1, 4, 8, 12])]),
             14 => {
                 if ctx.rng.chance(1, 3) {
                     Ix::foreign("failing_foreign", failing, vec![0; 8])
